@@ -218,3 +218,20 @@ ghost_code("annotate.annotate_citations", "after:Expr#3", "use_lemma('slice_conc
 ghost_code("annotate.annotate_citations", "after:Expr#4", "use_lemma('slice_concat_tail', plain_text, last_end)\nghost.content = ghost.content + plain_text[last_end:len(plain_text)]")
 ghost_code("annotate.annotate_citations", "after:Assign#2", "assert len(offset_updater.offsets) >= 1 and offset_updater.len_a == len(plain_text) and offset_updater.len_b == len(source_text), 'updater_ready'")
 ghost_code("annotate.annotate_citations", "loop1:body_start", "assert implies(offset_updater is not None, len(offset_updater.offsets) >= 1 and offset_updater.len_a == len(ghost.plain0)), 'updater_ready_in_loop'")
+
+# two-state clauses of one loop iteration (prev(x) = value at the start of the iteration)
+_SPAN_S = "it[k][0][0]"
+_SPAN_E = "it[k][0][1]"
+R.loops[("annotate.annotate_citations", 1)].step.update({
+    # C10 clause A (no source text, 'unchecked'): a non-empty span that does not overlap an earlier one is emitted exactly once,
+    # as  gap + before + text[start:end] + after,  in the (sorted) span order of the iteration
+    "emits_exact": f"implies(offset_updater is None and unbalanced_tags == 'unchecked' and {_SPAN_S} >= prev(last_end) and {_SPAN_S} < {_SPAN_E}, "
+                   f"len(out) == len(prev(out)) + 2 and out[len(out) - 1] == it[k][1] + plain_text[{_SPAN_S}:{_SPAN_E}] + it[k][2] "
+                   f"and out[len(out) - 2] == plain_text[prev(last_end):{_SPAN_S}] and last_end == {_SPAN_E})",
+    "never_more_than_once": "len(out) == len(prev(out)) or len(out) == len(prev(out)) + 2",
+    # C11 guards: 'skip' emits an annotation only around a span that passed the balance test (also after the style-tag repair) ...
+    "skip_emits_only_balanced": "implies(unbalanced_tags == 'skip' and len(out) > len(prev(out)), wf_html(plain_text[start:end]))",
+    # ... and 'wrap' omits an annotation only when its span is completely covered by an earlier one
+    "wrap_emits_all": "implies(unbalanced_tags == 'wrap' and len(out) == len(prev(out)), start >= end)",
+})
+R.loops[("annotate.annotate_citations", 1)].props.update({"emits_exact": "C10", "never_more_than_once": "C10", "skip_emits_only_balanced": "C11", "wrap_emits_all": "C11"})
